@@ -75,6 +75,7 @@ def gen_cfg(r: random.Random, kn: dict) -> dict:
     if r.random() < kn.get("p_budget", 0.3):
         cfg["budget"] = {"max": r.choice([0, 1, 1, 2, 3, 5, 8]), "window_us": r.choice([1_000_000, 2_000_000, 5_000_000, 60_000_000])}
     cfg["breaker"] = None
+    cfg["feedback"] = r.random() < kn.get("p_feedback", 0.2)
     return cfg
 
 
@@ -88,7 +89,10 @@ def gen_attempts(r: random.Random, cfg: dict, kn: dict, n: int) -> list[dict]:
     for i in range(n):
         x = r.random()
         if x < p_ok and i > 0 or (i == 0 and x < p_ok / 3):
-            out.append({"kind": "ok", "dur": _dur(r)})
+            st = {"kind": "ok", "dur": _dur(r)}
+            if r.random() < kn.get("p_aw_value", 0.1):
+                st["aw"] = True
+            out.append(st)
             continue
         if style < 0.3:
             cls = favour if r.random() < 0.8 else r.choice(CLASSES)
@@ -98,6 +102,8 @@ def gen_attempts(r: random.Random, cfg: dict, kn: dict, n: int) -> list[dict]:
             cls = r.choice(CLASSES)
         kind = "res" if (cfg["result_classifier"] and r.random() < 0.45) else "exc"
         step = {"kind": kind, "cls": cls, "dur": _dur(r)}
+        if kind == "res" and r.random() < kn.get("p_none_result", 0.12):
+            step["none"] = True
         if r.random() < kn.get("p_ra", 0.15):
             step["ra"] = r.choice(GRID)
         out.append(step)
@@ -171,6 +177,7 @@ def gen_place(r: random.Random, kn: dict, mode: str) -> dict:
 
 def gen_hooks(r: random.Random, kn: dict, how: str) -> dict:
     return {
+        "shape": r.choice(["method", "method", "partial", "object"]),
         "on_metric": r.random() < kn.get("p_metric", 0.7),
         "on_log": r.random() < kn.get("p_log", 0.6),
         "operation": r.choice([None, "op", "fetch"]),
@@ -217,6 +224,10 @@ def gen_retry(seed: int, kn: dict | None = None) -> dict:
             b["prefill"] = ages
     for i, c in enumerate(calls[1:], 1):
         c["before"] = [["adv", r.choice([0, 1000, 1_000_000, 61_000_000])]]
+    if r.random() < kn.get("p_attempt_timeout", 0.0):
+        # never fires (operations take <= 3 s of virtual time and no real time): sync = real worker-thread path
+        # of _call_with_timeout, async = asyncio.wait_for on the SimLoop
+        cfg["attempt_timeout_us"] = r.choice([10_000_000, 60_000_000, 3_600_000_000, 2 * cfg["deadline_us"] + 10_000_000])
     scn = {"kind": "retry", "seed": seed, "mode": mode, "entry": entry, "how": how, "cfg": cfg,
            "place": place, "hooks": hooks, "clock": gen_clock(r, kn), "calls": calls}
     if cfg["budget"] and cfg["budget"].get("prefill"):
